@@ -40,6 +40,18 @@ class RecWorld(World):
         self.inner = None          # the TCP/UDP layer whose state is logged (default: the top layer)
         self.force_in = None       # label for deliveries that belong to a tunnel handshake
         self.transport = None      # tunnel family: the real connection (to the proxy) carrying ctx.server
+        self.dead = ""             # sides ("c"/"s") whose writer.write_eof() raises OSError
+
+    def _close(self, conn, half_close):
+        # ConnectionHandler.close_connection, `except OSError` branch: "if we can't write to the socket anymore we
+        # presume it completely dead": state CLOSED, handler cancelled (-> ConnectionClosed if it was still reading)
+        if half_close and self.side(conn) in self.dead and (conn.state & ConnectionState.CAN_WRITE):
+            had_read = bool(conn.state & ConnectionState.CAN_READ)
+            conn.state = ConnectionState.CLOSED
+            self.trace.append(("close", self.label(conn), True))
+            self.queue.append(("closed_by_command" if had_read else "closed_quietly", conn))
+            return
+        super()._close(conn, half_close)
 
     def side(self, conn):
         return "c" if conn is self.ctx.client else "s"
@@ -60,7 +72,8 @@ class RecWorld(World):
             return f"closed {self.side(ev.connection)} {1 if ev.connection.state is ConnectionState.CLOSED else 0}"
         if isinstance(ev, events.MessageInjected):
             return f"inject {1 if ev.message.from_client else 0} {hx(ev.message.content)}"
-        if isinstance(ev, events.HookCompleted): return f"hook {self.edit_repr}"
+        if isinstance(ev, events.HookCompleted):
+            return "hookkill" if self.edit_repr == "kill" else f"hook {self.edit_repr}"
         if isinstance(ev, events.OpenConnectionCompleted): return f"connect {1 if ev.reply else 0}"
         return "?" + type(ev).__name__
 
@@ -98,6 +111,12 @@ class RecWorld(World):
         ent["paused"] = 0 if lay._paused is None else 1
         ent["q"] = len(lay._paused_event_queue)
         ent["n"] = len(lay.flow.messages) if lay.flow else 0
+        ent["live"], ent["err"] = flow_flags(lay)
+
+
+def flow_flags(lay):
+    f = getattr(lay, "flow", None)
+    return (1, 0) if f is None else (1 if f.live else 0, 1 if f.error else 0)
 
 
 def run_schedule(case):
@@ -113,6 +132,7 @@ def run_schedule(case):
         return "defer" if isinstance(h, LAYER_HOOKS) else None
 
     w = RecWorld(lay, ctx, on_hook=on_hook, on_connect=lambda w, c: "defer")
+    w.dead = case.get("dead", "")
     if connected:
         ctx.server.timestamp_start = 1.0
         w.add_open_server(ctx.server)
@@ -127,12 +147,12 @@ def run_schedule(case):
         if not w.deferred_hooks: return
         h = w.deferred_hooks[0]
         w.edit_repr = "none"
-        if isinstance(h, (ltcp.TcpMessageHook, ludp.UdpMessageHook)):
-            if edit == "kill":
-                if h.flow.killable: h.flow.kill(); killed += 1
-            elif edit is not None:
-                h.flow.messages[-1].content = unhx(edit)
-                w.edit_repr = edit
+        if edit == "kill":
+            # flow.kill() inside any of the layer's hooks (only legal while the flow is killable)
+            if h.flow.killable: h.flow.kill(); killed += 1; w.edit_repr = "kill"
+        elif isinstance(h, (ltcp.TcpMessageHook, ludp.UdpMessageHook)) and edit is not None:
+            h.flow.messages[-1].content = unhx(edit)
+            w.edit_repr = edit
         w.resume(h)
 
     w.start()
@@ -183,16 +203,25 @@ class ChildTap:
         w, lay = self.w, self.inner
         ent = {"in": w.describe(event), "out": []}
         self.log.append(ent)
-        try:
-            for c in lay.handle_event(event):
-                r = w.render(c)
-                if r is not None: ent["out"].append(r)
-                yield c
-        finally:
+
+        def snap():
             ent["ph"] = {"start": "start", "relay_messages": "relay", "done": "done"}.get(lay._handle_event.__name__, "?")
             ent["paused"] = 0 if lay._paused is None else 1
             ent["q"] = len(lay._paused_event_queue)
             ent["n"] = len(lay.flow.messages) if lay.flow else 0
+            ent["live"], ent["err"] = flow_flags(lay)
+        frozen = False
+        try:
+            for c in lay.handle_event(event):
+                r = w.render(c)
+                if r is not None: ent["out"].append(r)
+                if isinstance(c, commands.OpenConnection):
+                    # the child is now paused on this command; the tunnel layer keeps this generator suspended until the
+                    # transport connection is up, so the child's state *for this call* is the one right now
+                    snap(); frozen = True
+                yield c
+        finally:
+            if not frozen: snap()
 
 
 def run_schedule_tunnel(case):
@@ -222,11 +251,10 @@ def run_schedule_tunnel(case):
         if not w.deferred_hooks: return
         h = w.deferred_hooks[0]
         w.edit_repr = "none"
-        if isinstance(h, ltcp.TcpMessageHook):
-            if edit == "kill":
-                if h.flow.killable: h.flow.kill(); killed += 1
-            elif edit is not None:
-                h.flow.messages[-1].content = unhx(edit); w.edit_repr = edit
+        if edit == "kill":
+            if h.flow.killable: h.flow.kill(); killed += 1; w.edit_repr = "kill"
+        elif isinstance(h, ltcp.TcpMessageHook) and edit is not None:
+            h.flow.messages[-1].content = unhx(edit); w.edit_repr = edit
         w.resume(h)
 
     def do_connect(err):
@@ -292,21 +320,27 @@ def well_formed(case):
 class Check(PropertyCheck):
     prop = "C29"
     design_ref = "§5 C29"
-    level_text = ("Lean theorems over ALL input schedules of the TCPLayer/UDPLayer state machine (start with optional "
-                  "connect, relay, half-close rule, done, Layer pause/replay queue, injection, addon edits): "
-                  "relay_exact_per_direction (+ addon_edit_is_what_is_sent, inject_is_spoofed_data), half_close_propagated_while_other_direction_flows "
-                  "(+ half_close_emitted_once_quiescent for closes buffered behind hooks, full_close_only_when_ending, "
-                  "tcp_ends_only_when_both_directions_closed), "
-                  "exactly_one_end_or_error (at most one always; exactly one once quiescent with both sides closed / connect "
-                  "failed), nothing_relayed_after_end; proved by invariants over the run, no bound on schedule length. The model is "
-                  "tied to the real layers by step-by-step comparison (commands, connection states, handler, pause flag, queue "
-                  "length, message count) on exhaustive short and random longer schedules driven through world.py; a second "
-                  "family runs the real TCPLayer UNDER a real tunnel layer (HttpUpstreamProxy / tunnel.py): model tie at the "
-                  "tunnel/TCPLayer boundary, property oracle on what reaches the transport connection.")
-    level_note = ("model covers TCPLayer, UDPLayer and Layer.handle_event/__continue; connection-state effects of commands "
-                  "are those of ConnectionHandler.close_connection (OSError branch of write_eof not modelled); flow.kill() "
-                  "inside a hook is exercised by the harness and has no effect on the relay (as in the code); "
-                  "the tie is differential, not a proof.")
+    level_text = ("Lean theorems over ALL input schedules (every interleaving of the two directions, hooks pending, injections, addon "
+                  "edits, flow.kill() inside any hook [Input.hookKill], half/full closes in any order, connect results) of the "
+                  "TCPLayer/UDPLayer + Layer pause/replay-queue model: relay_exact_per_direction (+ addon_edit_is_what_is_sent, "
+                  "inject_is_spoofed_data, kill_in_message_hook_still_relays, kill_is_plain_completion), "
+                  "half_close_propagated_while_other_direction_flows, half_close_emitted_once_quiescent (closes buffered behind "
+                  "hooks), full_close_only_when_ending, tcp_ends_only_when_both_directions_closed, at_most_one_end_or_error, "
+                  "exactly_one_end_or_error, connect_failure_fires_error, nothing_relayed_after_end; the *_any_sockets variants "
+                  "(relay exact, at most one end/error, nothing after end, no full close while relaying) also hold when "
+                  "write_eof raises OSError on either socket (close_connection's except branch, initX). Proved by invariants "
+                  "over the run, no bound on schedule length. Tie: step-by-step comparison with the real layers through world.py "
+                  "of commands, connection states, handler, pause flag, queue length, message count and the model-PREDICTED "
+                  "flow.live / flow.error flags; families: plain, dead sockets (OSError branch emulated as in server.py), and the "
+                  "real TCPLayer under a real tunnel layer (HttpUpstreamProxy / tunnel.py; tie at the tunnel/TCPLayer boundary, "
+                  "property oracle on what reaches the transport connection).")
+    level_note = ("inside the model: TCPLayer, UDPLayer, Layer.handle_event/__continue, ConnectionHandler.close_connection "
+                  "incl. the OSError branch of write_eof (a per-run environment flag per socket), Flow.kill()/killable as seen by "
+                  "the layers. Liveness theorems (exactly_one_end_or_error, half_close_emitted_once_quiescent, "
+                  "half_close_propagated...) are stated for live sockets: with a dead socket the ConnectionClosed that the "
+                  "cancelled handler still owes is an environment obligation the model does not assume. Not proved: that the "
+                  "recorded messages equal the accepted input events in arrival order as one whole-history statement (it is the "
+                  "step-local lemmas + the FIFO queue by construction; validated by the tie). The tie is differential, not a proof.")
     technique = "Lean 4 proof (invariants over all schedules of an executable state-machine model) + step-wise model-vs-code correspondence via world.py"
     rule = ("schedules over {data c/s, inject, close c/s (half/full), hook completion (keep/edit/kill), connect ok/err} for "
             "proto x flow/ignore x server pre-connected; exhaustive short schedules first, then random ones of length <= 16 "
@@ -322,7 +356,7 @@ class Check(PropertyCheck):
     parallel = False              # set per tier in setup(): process pool only for the thorough tier
 
     ALPHA = [("data", "c", "61"), ("data", "s", "62"), ("close", "c", 0), ("close", "s", 0), ("hook", None),
-             ("hook", "7a7a"), ("connect", 0), ("connect", 1), ("inject", 1, "69"), ("close", "c", 1)]
+             ("hook", "7a7a"), ("connect", 0), ("connect", 1), ("inject", 1, "69"), ("close", "c", 1), ("hook", "kill")]
 
     def setup(self, tier):
         self.parallel = tier == "thorough"
@@ -352,7 +386,16 @@ class Check(PropertyCheck):
                 yield {"proto": "tcp", "flow": 1, "connected": 0, "tunnel": 1,
                        "sched": [["hook", None], ["connect", 0]] + [list(a) for a in t]}
 
+    def enum_dead(self, maxlen):
+        alpha = [("data", "c", "61"), ("data", "s", "62"), ("close", "c", 0), ("close", "s", 0), ("hook", None), ("hook", "kill")]
+        for n in range(maxlen + 1):
+            for t in itertools.product(alpha, repeat=n):
+                for dead in ("c", "s", "cs"):
+                    for flow in (1, 0):
+                        yield {"proto": "tcp", "flow": flow, "connected": 1, "dead": dead, "sched": [list(a) for a in t]}
+
     def generate(self, rng, tier):
+        yield from self.enum_dead(3 if tier == "quick" else 5)
         yield from self.enum_tunnel(2)
         yield from self.enum(3 if tier == "quick" else 4, self.ALPHA)
         yield from self.enum_tunnel(3 if tier == "quick" else 5)
@@ -399,6 +442,9 @@ class Check(PropertyCheck):
             else:
                 sched.append(["connect", 1 if rng.chance(0.3) else 0])
         case = {"proto": proto, "flow": flow, "connected": connected, "sched": sched}
+        if proto == "tcp" and rng.chance(0.2):
+            case["dead"] = rng.pick(["c", "s", "cs"])      # write_eof raises OSError on these sockets
+            return case
         if proto == "tcp" and flow and not connected and rng.chance(0.5):
             case["tunnel"] = 1      # same schedule, but the TCPLayer sits under an HttpUpstreamProxy tunnel
         return case
@@ -454,8 +500,15 @@ class Check(PropertyCheck):
                 # neither side can be read any more; `pre` = states when the event was handed to the layer
                 full = [o for o in st["out"] if o.startswith("C:") and o.endswith(":f")]
                 err_seen = err_seen or st["in"] == "connect 1"
-                if full and not err_seen and "r" in st["pre"][0] + st["pre"][2]:
-                    fails.append(f"full close {full} while a side was still readable (state {st['pre']})")
+                if full and not err_seen:
+                    # readability when the first full close is yielded: a half-close earlier in the same call on a socket
+                    # whose write_eof raises has already closed that connection completely (close_connection, OSError branch)
+                    rd = {"c": st["pre"][0] == "r", "s": st["pre"][2] == "r"}
+                    for o in st["out"]:
+                        if o in full: break
+                        if o.startswith("C:") and o.endswith(":h") and o[2] in case.get("dead", ""): rd[o[2]] = False
+                    if rd["c"] or rd["s"]:
+                        fails.append(f"full close {full} while a side was still readable (state {st['pre']})")
             for idx, st in enumerate(obs["steps"]):
                 if not st["in"].startswith("closed"): continue
                 # only the first ConnectionClosed of a connection is a peer's half-close (server.py delivers one per connection)
@@ -478,7 +531,10 @@ class Check(PropertyCheck):
         if "exc" in obs: return None
         # tunnel family: the model is tied at the TunnelLayer/TCPLayer boundary (events the child really received)
         steps = obs["csteps"] if case.get("tunnel") else obs["steps"]
-        return [f"reset {case['proto']} {case['flow']} {case['connected']}"] + [st["in"] for st in steps]
+        dead = case.get("dead", "")
+        head = (f"resetx {case['proto']} {case['flow']} {case['connected']} {int('c' in dead)} {int('s' in dead)}" if dead
+                else f"reset {case['proto']} {case['flow']} {case['connected']}")
+        return [head] + [st["in"] for st in steps]
 
     def model_obs(self, case, replies):
         if case.get("tunnel"):
@@ -488,15 +544,16 @@ class Check(PropertyCheck):
 
     def impl_view(self, case, obs):
         if case.get("tunnel"):
-            return ["%s ph=%s paused=%d q=%d n=%d" % (",".join(st["out"]) or "-", st["ph"], st["paused"], st["q"], st["n"])
-                    for st in obs["csteps"]]
-        return ["%s c=%s s=%s ph=%s paused=%d q=%d n=%d" % (",".join(st["out"]) or "-", st["c"], st["s"], st["ph"],
-                                                             st["paused"], st["q"], st["n"]) for st in obs["steps"]]
+            return ["%s ph=%s paused=%d q=%d n=%d live=%d err=%d" % (",".join(st["out"]) or "-", st["ph"], st["paused"], st["q"],
+                                                                     st["n"], st["live"], st["err"]) for st in obs["csteps"]]
+        return ["%s c=%s s=%s ph=%s paused=%d q=%d n=%d live=%d err=%d" % (",".join(st["out"]) or "-", st["c"], st["s"], st["ph"],
+                                                                             st["paused"], st["q"], st["n"], st["live"], st["err"])
+                for st in obs["steps"]]
 
     def classify(self, case, obs):
         if "exc" in obs: return None
         if not any(o[0] in "SC" for st in obs["steps"] for o in st["out"]): return None
-        return (case["proto"], case["flow"], case["connected"], bool(case.get("tunnel")), tuple(st["in"] for st in obs["steps"]))
+        return (case["proto"], case["flow"], case["connected"], bool(case.get("tunnel")), case.get("dead", ""), tuple(st["in"] for st in obs["steps"]))
 
     def branches(self, case, obs):
         if "exc" in obs: return ["exc"]
@@ -510,6 +567,9 @@ class Check(PropertyCheck):
         if any(st["in"].startswith("inject") for st in obs["steps"]): b.append("inject")
         if obs.get("killed"): b.append("kill-in-hook")
         if not well_formed(case): b.append("wild-schedule")
+        if case.get("dead"):
+            b.append("dead-socket:" + case["dead"])
+            if any(o.endswith(":h") for o in outs): b.append("write_eof-OSError-branch-taken")
         if case.get("tunnel"):
             b.append("under-tunnel(HttpUpstreamProxy)")
             seen_close = False
